@@ -214,7 +214,17 @@ struct SGen {
         for (size_t i = 0; i < trail; i++) o += '\n';
         return o;
     }
+    // larger than libyaml's 16 KiB emitter / reader buffers: multi-byte characters straddle the buffer ends
+    std::string huge_text() {
+        std::string unit = c.boolean() ? gen_cps(12) + " " + word() : long_text();
+        if (unit.empty()) unit = "x";
+        size_t target = 15000 + (size_t)c.draw(25000);
+        std::string o;
+        while (o.size() < target) { o += unit; if (c.chance(1, 3)) o += c.boolean() ? "\n" : " "; }
+        return o;
+    }
     std::string gen_value() {
+        if (c.chance(1, 200)) return huge_text();
         switch (c.weighted({4, 9, 6, 4, 4, 2, 1})) {
         case 0: return word();
         case 1: return c.pick(lookalikes());
@@ -242,7 +252,10 @@ struct SGen {
             static const std::vector<std::string> pool = {"key one", "x.y", "sp ", "  lead", "q\\", "0d", "-m", "a=b", "h#", "{c}", "[d]", "[0]", "[+]", "t\tb", "nl\nx", "+", "a  b", "a-b", "_u", "a.b.c", ".", "..", "a.", ".a", "a[0]", "a{}", "k ", " k", "\\.", "\\\\", "a\\ ", "a\\  ", " \\"};
             k = c.pick(pool); break;
         }
-        case 4: k = long_text(); if (k.size() < 130) k += std::string(130 - k.size(), 'k'); break;     // beyond libyaml's 128-byte simple key
+        case 4:     // beyond libyaml's 128-byte simple-key limit of the emitter, sometimes beyond the 1024 of the scanner
+            k = long_text(); if (k.size() < 130) k += std::string(130 - k.size(), 'k');
+            if (c.chance(1, 4)) { std::string w = word(); while (k.size() < 1100) k += (c.boolean() ? " " : "") + w; }
+            break;
         default: k = multi_line(); break;
         }
         if (k.empty()) k = c.boolean() ? "k" : " ";
@@ -312,7 +325,7 @@ struct TGen {
 struct Stats {
     bool cls_key[K_N] = {}, cls_val[K_N] = {};
     bool quoted_key = false, lookalike = false, multiline = false, empty_map = false, empty_list = false;
-    bool null_in_map = false, null_in_list = false, long_scalar = false, long_key = false, lookalike_key = false;
+    bool null_in_map = false, null_in_list = false, long_scalar = false, long_key = false, lookalike_key = false, huge_scalar = false, very_long_key = false;
     int depth = 0, nodes = 0;
     void scan_str(const std::string &x, bool *cls) { std::vector<uint32_t> cps; decode_utf8(x, &cps); for (uint32_t cp : cps) cls[classify(cp)] = true; }
     void walk(const NodeP &n, int d) {
@@ -323,6 +336,7 @@ struct Stats {
             if (yaml_lookalike(n->sval)) lookalike = true;
             if (n->sval.find('\n') != std::string::npos) multiline = true;
             if (n->sval.size() > 80) long_scalar = true;
+            if (n->sval.size() > 15000) huge_scalar = true;
         } else if (n->kind == Node::MAP) {
             if (n->map.empty()) empty_map = true;
             for (auto &p : n->map) {
@@ -330,6 +344,7 @@ struct Stats {
                 if (PropGen::needs_quote(p.first)) quoted_key = true;
                 if (yaml_lookalike(p.first)) lookalike_key = true;
                 if (p.first.size() > 128) long_key = true;
+                if (p.first.size() > 1024) very_long_key = true;
                 if (!p.second) null_in_map = true;
                 walk(p.second, d + 1);
             }
@@ -354,6 +369,8 @@ struct Stats {
         if (null_in_list) c.label("has:null-in-list");
         if (long_scalar) c.label("has:scalar>80-bytes");
         if (long_key) c.label("has:key>128-bytes");
+        if (huge_scalar) c.label("has:scalar>15000-bytes");
+        if (very_long_key) c.label("has:key>1024-bytes");
     }
 };
 
